@@ -77,6 +77,7 @@ func doOps(st *execState, t *Tracker, ops []int) {
 
 func runScen(sc scen, choose vsched.Chooser) (*vsched.Sched, string, string) {
 	st := &execState{}
+	vsched.Demotion = true // "starve this thread" is one decision (see vsched)
 	body := func() {
 		st.a = memory.NewAllocator() // starts the page-cache refill goroutine (a controlled thread)
 		pre := NewTracker(st.a, 99)
